@@ -350,7 +350,7 @@ def add_stale(L, rng, args, index, p=0.3, extra_dirs=()):
                     L.add({'p': td + '/files/' + nm, 't': 'l',
                            'to': 'nowhere-%d' % index})
                     continue
-                kind = rng.choice(['file', 'dir_empty', 'tree'])
+                kind = rng.choice(['file', 'dir_empty', 'tree', 'link_dangling'])
                 for nd in gen.entry_nodes(rng, td + '/files/' + nm, kind,
                                           'stale%d' % index):
                     L.add(nd)
